@@ -473,3 +473,27 @@ pub fn replay_sweep(path: &str) {
         println!("{{\"op\":\"{}\",\"outcome\":\"{}\",\"popped\":{},\"trivial\":{},\"sorted\":{},\"out\":{}}}", op, o.outcome, popped, trivial, sorted_json, out);
     }
 }
+
+/// stage record for literal inputs: lines {"A":mp,"B":mp,"op":"..","F":"f32"|"f64"}
+pub fn stage_inputs(path: &str) {
+    let text = std::fs::read_to_string(path).expect("file");
+    let mut rid = 1;
+    for line in text.lines().filter(|l| !l.trim().is_empty()) {
+        let v: serde_json::Value = serde_json::from_str(line).expect("json");
+        let mp = |x: &serde_json::Value| -> IMp {
+            x.as_array().unwrap().iter().map(|p| {
+                let rings: Vec<Vec<P>> = p.as_array().unwrap().iter().map(|r| r.as_array().unwrap().iter().map(|q| (q[0].as_i64().unwrap(), q[1].as_i64().unwrap())).collect()).collect();
+                gen::IPoly { ext: rings.first().cloned().unwrap_or_default(), holes: rings.into_iter().skip(1).collect() }
+            }).collect()
+        };
+        let (a, b) = (mp(&v["A"]), mp(&v["B"]));
+        let mut rng = Rng::new(1);
+        let op = v["op"].as_str().unwrap();
+        if v["F"].as_str() == Some("f32") {
+            println!("{}", stage_run::<f32>(rid, "literal", 0, &a, &b, op, 0, &mut rng));
+        } else {
+            println!("{}", stage_run::<f64>(rid, "literal", 0, &a, &b, op, 0, &mut rng));
+        }
+        rid += 1;
+    }
+}
